@@ -177,7 +177,7 @@ StructStart ==
                        [f EXCEPT !.pc = "fields", !.sub = Len(ctxs) + 1, !.todo = DOMAIN n.kids])
      IN Commit(
           IF Mode = "validate" \/ f.in.t \in {"map", "nil", "missing"} THEN go
-          ELSE WithTop(AddIssue(Cur, f.ctx, Iss(f.ip, "coerce", "struct")), [f EXCEPT !.pc = "ptgate"]))
+          ELSE WithTop(AddIssue(Cur, f.ctx, Iss(f.ip, IF f.in.t = "badjson" THEN "invalid_json" ELSE "coerce", "struct")), [f EXCEPT !.pc = "ptgate"]))
 
 \* Go map iteration: any remaining field is next
 StructField(k) ==
